@@ -163,8 +163,13 @@ func setupZones() {
 	if err != nil {
 		panic(err)
 	}
+	apia, err := time.LoadLocation("Pacific/Apia") // skipped 2011-12-30 entirely
+	if err != nil {
+		panic(err)
+	}
 	add("ny", ny, false)
 	add("lh", lh, false)
+	add("apia", apia, false)
 	for _, z := range zones {
 		if z.fixed {
 			_, off := time.Unix(0, 0).In(z.loc).Zone()
@@ -247,6 +252,8 @@ var instants = []inst{
 	{"2021-04-04", "01:45:00"}, // Lord Howe overlap (02:00 -> 01:30)
 	{"2023-08-15", "12:34:56"},
 	{"1883-11-18", "12:00:00"}, // New York LMT -> EST
+	{"2011-12-30", "00:00:00"}, // the day Pacific/Apia skipped
+	{"2011-12-31", "00:00:00"},
 }
 
 var fracs = []string{
@@ -856,6 +863,7 @@ func genExec() {
 	strs := []string{
 		"2015-08-02", "2015-08-01", "2021-03-14", "2021-11-07",
 		"2015-08-02T00:00:00", "2021-03-14T02:30:00", "2021-11-07T01:30:00", "2015-08-01T23:59:59.999999999",
+		"2021-03-14T01:45:00", "2021-03-14T06:40:00Z", "2011-12-30", "2011-12-30T10:00:00Z",
 		"2015-08-02T00:00:00-04:00", "2015-08-02T04:00:00Z", "2015-08-02T00:00:00+00", "2021-03-14T07:30:00Z",
 		"2021-11-07T05:30:00Z", "2021-11-07T06:30:00Z", "2015-08-01T18:30:00+00:00", "2015-08-02 05:30:00+05:30",
 		"12:00:00", "12:00:00.000000001", "12:00:00Z", "13:00:00+01", "11:00:00-01:00", "17:30:00+05:30", "04:00:00-08",
